@@ -24,11 +24,16 @@ POOL_X = POOL + [("ls\u2028ep.txt", b"linesep"), ("d/é è", DIR), ("d/é è/\U0
                  # names that OTHER tools ignore by default - this one only excludes .DS_Store and its own ascmhl folders
                  ("Thumbs.db", b"windows thumbnails"), ("._a.txt", b"AppleDouble twin"), (".git", DIR), (".git/config", b"[core]"),
                  ("desktop.ini", b"[.ShellClassInfo]"), ("x.tmp~", b"editor backup")]
+# sizes around the 1 MiB block in which files are read (contents without a period that divides the block size)
+_RAMP = bytes((i * 7 + i // 251) % 256 for i in range(65521))
+MIB = 1 << 20
+POOL_S = [("m0.bin", (_RAMP * 17)[:MIB - 1]), ("m1.bin", (_RAMP * 17)[:MIB]), ("m2.bin", (_RAMP * 17)[:MIB + 1]),
+          ("d", DIR), ("d/m3.bin", (_RAMP * 40)[:2 * MIB + 17]), ("d/m4.bin", (_RAMP * 40)[:2 * MIB])]
 FSETS = [["xxh64"], ["c4", "md5"], list(ref.FORMATS_CLI)]
 
 
 def pool_of(meta):
-    return POOL_X if meta.get("pool") == "x" else (POOL_T if meta.get("pool") == "t" else POOL)
+    return POOL_S if meta.get("pool") == "s" else POOL_X if meta.get("pool") == "x" else (POOL_T if meta.get("pool") == "t" else POOL)
 
 
 def closed_subsets(pool, k):
@@ -214,6 +219,8 @@ def main(tier, seed):
     plans.append(dict(k=3 if tier == "quick" else 4, max_gens=2, max_edits=0, pool="p", only=["a.txt", "d/a.txt"]))
     # the tree reached through a symbolic link to the root (every path of the command line goes through the link)
     plans.append(dict(k=2 if tier == "quick" else 3, max_gens=2, max_edits=0, pool="p", spell="symlink"))
+    # files larger than / exactly as large as the block in which they are read
+    plans.append(dict(k=2, max_gens=1 if tier == "quick" else 2, max_edits=0, pool="s", sf2=False))
     if os.environ.get("VERIF_ONLY_PLAN"):   # (timing aid when tuning bounds)
         plans = [plans[int(os.environ["VERIF_ONLY_PLAN"])]]
     tot = {"states": 0, "transitions": 0}
